@@ -198,13 +198,15 @@ XalanOutputStream::transcode(
                 }
             }
 
-            if (theSourceBytesEaten == 0 && theTargetBytesEaten == 0)
+            if (theSourceBytesEaten == 0 &&
+                theTargetBytesEaten == 0 &&
+                theTargetSize >= (theRemainingBufferLength + 1) * 8)
             {
                 // The transcoder made no progress, although there was room
-                // in the destination, so the rest of the input cannot be
-                // transcoded (it ends in the middle of a surrogate pair,
-                // for example).  Growing the destination again and again
-                // would never end.
+                // in the destination for any encoding of what is left, so
+                // the rest of the input cannot be transcoded (it ends in
+                // the middle of a surrogate pair, for example).  Growing
+                // the destination again and again would never end.
                 XalanDOMString  theExceptionBuffer(theDestination.getMemoryManager());
 
                 throw TranscodingException(
